@@ -180,7 +180,13 @@ impl Prop for C18 {
         } else {
             let base = py::gen_source(rng, 8);
             let faults = rng.below(7);
-            py::inject_faults(rng, &base, faults)
+            let s = py::inject_faults(rng, &base, faults);
+            // now and then indented with tabs, or with carriage-return line-feed line ends
+            match rng.below(16) {
+                0 => s.replace("    ", "\t"),
+                1 if !s.contains('\r') => s.replace('\n', "\r\n"),
+                _ => s,
+            }
         };
         let tree = parse_python(&source);
         let ti = TreeInfo::new(&tree);
